@@ -10,6 +10,7 @@ mod c02;
 mod c03;
 mod c04;
 mod c05;
+mod c07;
 mod c09;
 mod c10;
 mod tree;
@@ -41,6 +42,7 @@ fn scenarios(prop: &str, tier: &str) -> Vec<Scenario> {
         "C03" => c03::scenarios(tier),
         "C04" => c04::scenarios(tier),
         "C05" => c05::scenarios(tier),
+        "C07" => c07::scenarios(tier),
         "C09" => c09::scenarios(tier),
         "C10" => c10::scenarios(tier),
         "C14" => c14::scenarios(tier),
